@@ -1,7 +1,106 @@
-(* family 8: stub, to be filled *)
+(* family 8: PUS verification tracker (C16).
+   A request id is six integers [ver; ptype; shf; apid; seq_flags; seq_count].
+   A status is [recvd; accepted; started; step; completed; step_list...].
+   800  history: every argument is one call
+          [0; id6]                          add_tc (telecommand with that header)
+          [1; id6; sub; has_step; step]     add_tm (service-1 report)
+          [2; id6]                          remove_entry
+          [3]                               remove_completed_entries
+        result: per call  the return value  [0; bool] | [1] (None) | [2; completed; status] | [3; error]
+                followed by [n] and the n dictionary entries [key; status] in dictionary order.
+   801  one transition on a one-entry dictionary: a0 = status, a1 = [sub; has_step; step]
+   850  Spec: table on (a0 = status, a1 = [sub; step]):  [1] (ValueError) | [0; completed; status]
+   851  Spec: history on keys: a0 = keys to report; a1.. = [0; key] | [1; key; sub; step] | [2; key] | [3];
+        result: per call the return value as in 800 followed by, for every key of a0,
+        [key; 0] or [key; 1; status]. *)
 From Coq Require Import ZArith List Bool.
-From SP Require Import Base.Result Base.Bytes Run.Marshal.
+From SP Require Import Base.Result Base.Bytes Run.Marshal Model.SpacePacket Model.Verificator Spec.VerificatorSpec.
 Import ListNotations.
 Open Scope Z_scope.
 
-Definition run_verif (op : Z) (a : args) : args := [[1; 97]].
+Definition reqid_of (l : list Z) : reqid :=
+  {| r_ver := nth 0 l 0;
+     r_pid := {| pid_ptype := nth 1 l 0; pid_shf := nth 2 l 0; pid_apid := nth 3 l 0 |};
+     r_psc := {| psc_flags := nth 4 l 0; psc_count := nth 5 l 0 |} |}.
+Definition sph_of_id (l : list Z) : sph :=
+  {| ver := nth 0 l 0; ptype := nth 1 l 0; shf := nth 2 l 0; apid := nth 3 l 0;
+     sflags := nth 4 l 0; scount := nth 5 l 0; dlen := 0 |}.
+
+Definition status_fields (s : vstatus) : list Z :=
+  [recvd s; acc s; sta s; step s; comp s] ++ steps s.
+Definition status_of (l : list Z) : vstatus :=
+  {| recvd := nth 0 l 0; acc := nth 1 l 0; sta := nth 2 l 0; step := nth 3 l 0;
+     comp := nth 4 l 0; steps := skipn 5 l |}.
+
+Definition vop_of (l : list Z) : vop :=
+  match l with
+  | 0 :: id => AddTc (sph_of_id id)
+  | 1 :: r => AddTm {| rep_id := reqid_of (firstn 6 r); rep_sub := nth 6 r 0;
+                       rep_step := if nth 7 r 0 =? 0 then None else Some (nth 8 r 0) |}
+  | 2 :: id => RemoveEntry (reqid_of id)
+  | _ => RemoveCompleted
+  end.
+
+Definition vout_fields (o : vout) : list Z :=
+  match o with
+  | OBool b => [0; b2z b]
+  | ONone => [1]
+  | OResult s c => 2 :: b2z c :: status_fields s
+  | ORaise e => [3; err_code e]
+  end.
+
+Definition obs_v (x : vout * vdict) : args :=
+  vout_fields (fst x) :: [Z.of_nat (length (snd x))] :: map (fun e => fst e :: status_fields (snd e)) (snd x).
+
+(* ---- spec side ---- *)
+Definition sf_code (x : sf) : Z := match x with U => -1 | F => 0 | S => 1 end.
+Definition sf_of (z : Z) : sf := if z =? -1 then U else if z =? 0 then F else S.
+Definition sstatus_fields (t : sstatus) : list Z :=
+  [b2z (s_recvd t); sf_code (s_acc t); sf_code (s_sta t); sf_code (s_step t); sf_code (s_comp t)] ++ s_steps t.
+Definition sstatus_of (l : list Z) : sstatus :=
+  {| s_recvd := negb (nth 0 l 0 =? 0); s_acc := sf_of (nth 1 l 0); s_sta := sf_of (nth 2 l 0);
+     s_step := sf_of (nth 3 l 0); s_comp := sf_of (nth 4 l 0); s_steps := skipn 5 l |}.
+
+Definition sop_of (l : list Z) : sop :=
+  match l with
+  | 0 :: k :: _ => SAddTc k
+  | 1 :: k :: sub :: st :: _ => SAddTm k sub st
+  | 2 :: k :: _ => SRemoveEntry k
+  | _ => SRemoveCompleted
+  end.
+
+Definition sout_fields (o : sout) : list Z :=
+  match o with
+  | SBool b => [0; b2z b]
+  | SNone => [1]
+  | SResult t c => 2 :: b2z c :: sstatus_fields t
+  | SValueError => [3; 1]
+  end.
+
+Fixpoint srun (keys : list Z) (m : tracker) (ops : list sop) : args :=
+  match ops with
+  | [] => []
+  | o :: r =>
+    let '(m', x) := spec_step m o in
+    sout_fields x ::
+    map (fun k => match m' k with None => [k; 0] | Some t => k :: 1 :: sstatus_fields t end) keys
+    ++ srun keys m' r
+  end.
+
+Definition run_verif (op : Z) (a : args) : args :=
+  match op with
+  | 800 => [0] :: flat_map obs_v (vrun [] (map vop_of a))
+  | 801 =>
+    let id := [0; 1; 1; 5; 3; 7] in
+    let d := [(reqid_as_u32 (reqid_of id), status_of (lst 0 a))] in
+    let r := {| rep_id := reqid_of id; rep_sub := int 1 0 a;
+                rep_step := if int 1 1 a =? 0 then None else Some (int 1 2 a) |} in
+    let '(d', x) := vstep d (AddTm r) in [0] :: obs_v (x, d')
+  | 850 =>
+    match table (int 1 0 a) (int 1 1 a) (sstatus_of (lst 0 a)) with
+    | None => [[0]; [1]]
+    | Some (t, c) => [[0]; 0 :: b2z c :: sstatus_fields t]
+    end
+  | 851 => [0] :: srun (lst 0 a) t_empty (map sop_of (tl a))
+  | _ => [[1; 97]]
+  end.
